@@ -448,6 +448,7 @@ result_t Message::create(const string& filename, const DataFieldTemplates* templ
     }
     if (!lastChainLengthSpecified && chainLength < MAX_POS) {
       maxLength += MAX_POS-chainLength;
+      chainLengths.back() = MAX_POS;  // last part without length takes the remainder
     }
   } else if (!lastChainLengthSpecified) {
     maxLength = MAX_POS;
@@ -1180,7 +1181,11 @@ result_t ChainedMessage::prepareMasterPart(size_t index, char separator, istring
       addData = m_lengths[i+1];
     }
   }
-  if (pos+addData > allData.getCalculatedDataSize()) {
+  size_t dataSize = allData.getCalculatedDataSize();
+  if (index+1 == cnt && pos <= dataSize && pos+addData > dataSize) {
+    addData = dataSize-pos;  // the last part carries the remainder
+  }
+  if (pos+addData > dataSize) {
     return RESULT_ERR_INVALID_POS;
   }
   vector<symbol_t> id = m_ids[index];
